@@ -1,6 +1,6 @@
 """Per-property check registry used by bin/check and bin/gen_manifest."""
 
-HOOK_COMMITS = []
+HOOK_COMMITS = ["d1f7624"]
 NOT_APPLICABLE = {}
 
 ENGINES = [
